@@ -290,15 +290,12 @@ func (m *Model) deleteMode(id string, opts ...resource.WriteOption) error {
 		return ErrDeleteActiveMode
 	}
 
-	msg, err := m.modes.Delete(id, opts...)
-	if err != nil {
-		return err
-	}
-	if msg == nil {
+	_, err := m.modes.Delete(id, opts...)
+	if status.Code(err) == codes.NotFound {
 		return ErrModeNotFound
 	}
-
-	return nil
+	// NB if the mode is missing and resource.WithAllowMissing was given, Delete reports success without a message
+	return err
 }
 
 // UpdateMode will modify one of the modes stored in this device.
